@@ -216,6 +216,7 @@ def config_report(ex):
     lines = sum((o or [] for o in ex.res.outputs[n0:]), [])
     other, pairs = [], set()
     names = {n.lower(): n for n in SVCS}
+    names.update({"t%02d.example.org" % k: 1 for k in range(48)})
     for l in lines:
         if not l.startswith("A "):
             continue
@@ -238,6 +239,23 @@ class ReloadProfile:
         chain = [gen_tables(rnd)]
         for _ in range(rnd.choice([1, 1, 1, 2, 3])):
             chain.append(mutate(rnd, chain[-1], stats))
+        if rnd.random() < 0.03:
+            # a long operational life: a table of two dozen services of which every reload retires a few and adds a
+            # few new ones, a dozen or more times over (slots of the service table are vacated and reused throughout)
+            pool = ["t%02d.example.org" % k for k in range(48)]
+            cur = gen_tables(rnd)
+            cur["services"] = {n: rnd.choice(SVC_TYPES) for n in rnd.sample(pool, rnd.randint(18, 26))}
+            chain = [cur]
+            for _ in range(rnd.randint(10, 26)):
+                c = copy.deepcopy(chain[-1])
+                for n in rnd.sample(sorted(c["services"]), min(len(c["services"]), rnd.randint(2, 4))):
+                    del c["services"][n]
+                free = [n for n in pool if n not in c["services"]]
+                for n in rnd.sample(free, min(len(free), rnd.randint(2, 4))):
+                    if len(c["services"]) < 30:
+                        c["services"][n] = rnd.choice(SVC_TYPES)
+                chain.append(c)
+            stats.append("long_life_of_the_service_table")
         if rnd.random() < 0.15:
             # one string of one rule is edited by two successive reloads: first to another value, then in its
             # letter case only (a change detector that remembers the previous value sees only the second kind)
@@ -325,8 +343,11 @@ class ReloadProfile:
             # reloaded daemon lists in addition may be retired records kept while clients still refer to them
             # (whether a removed service is really out of use is decided by the probe conversations below)
             if R["config"][0] != F["config"][0] or not F["config"][1] <= R["config"][1]:
-                viol.append(Violation("C17", "config-report", "after the reload the daemon reports %r, a fresh daemon on the new file reports %r" %
-                                      ((R["config"][0], sorted(R["config"][1])), (F["config"][0], sorted(F["config"][1])))))
+                full = len(R["config"][1]) >= 32 and R["config"][0] == F["config"][0]
+                viol.append(Violation("C17", "config-report", "%safter the reload the daemon reports %r, a fresh daemon on the new file reports %r" %
+                                      ("[service table full: all 32 slots are taken by configured services and by retired ones that clients "
+                                       "still await, so a newly added service was refused] " if full else "",
+                                       (R["config"][0], sorted(R["config"][1])), (F["config"][0], sorted(F["config"][1])))))
             else:
                 for i, (a, b) in enumerate(zip(R["convs"], F["convs"])):
                     if a != b:
